@@ -309,3 +309,342 @@ Proof.
   unfold fusion_apply, fused_seq. rewrite Ed, Ea, P1, P2, D3, A3, DS, AS.
   rewrite !slice_nil. cbn [app]. rewrite DT, AD. reflexivity.
 Qed.
+
+(* ================================================================== intronic breakpoints *)
+Definition intronic_in (ex : list exon) (p : Z) : Prop :=
+  exists (pre : list exon) (A B : exon) (post : list exon), ex = pre ++ A :: B :: post /\ snd A <= p /\ p < fst B.
+
+Lemma clip_upto_gap : forall (pre : list exon) (A B : exon) post lo hi p,
+  chain lo (pre ++ A :: B :: post) hi -> snd A <= p -> p < fst B ->
+  clip_upto (pre ++ A :: B :: post) p = pre ++ [(fst A, p + 1)].
+Proof.
+  induction pre as [|x pre IH]; intros A B post lo hi p C H1 H2.
+  - cbn [app chain] in C. cbn [app clip_upto]. assert (p <? fst A = false) as -> by lia.
+    assert (p <? fst B = true) as -> by lia. reflexivity.
+  - cbn [app] in *. cbn [chain] in C. destruct C as (C1 & C2 & C3 & C4).
+    pose proof (chain_pre _ _ _ _ _ C4) as (Hpre & M1 & M2 & _).
+    cbn [clip_upto]. assert (p <? fst x = false) as -> by lia.
+    destruct pre as [|y pre'].
+    + cbn [app] in *. assert (p <? fst A = false) as -> by lia. f_equal. apply (IH A B post _ hi p C4 H1 H2).
+    + cbn [app] in *. pose proof (Hpre y (or_introl eq_refl)).
+      assert (p <? fst y = false) as -> by lia. f_equal. apply (IH A B post _ hi p C4 H1 H2).
+Qed.
+
+Lemma clip_from_gap : forall (pre : list exon) (A B : exon) post lo hi p,
+  chain lo (pre ++ A :: B :: post) hi -> snd A <= p -> p < fst B ->
+  clip_from (pre ++ A :: B :: post) p = (p, snd B) :: post.
+Proof.
+  induction pre as [|x pre IH]; intros A B post lo hi p C H1 H2.
+  - cbn [app chain] in C. cbn [app clip_from]. assert (p <? snd A = false) as -> by lia.
+    assert (p <? snd B = true) as -> by lia. reflexivity.
+  - cbn [app] in *. cbn [chain] in C. destruct C as (C1 & C2 & C3 & C4).
+    pose proof (chain_pre _ _ _ _ _ C4) as (_ & M1 & M2 & _).
+    cbn [clip_from]. assert (p <? snd x = false) as -> by lia. apply (IH A B post _ hi p C4 H1 H2).
+Qed.
+
+Lemma is_exonic_gap : forall (pre : list exon) (A B : exon) post lo hi p,
+  chain lo (pre ++ A :: B :: post) hi -> snd A <= p -> p < fst B -> is_exonic (pre ++ A :: B :: post) p = false.
+Proof.
+  intros. unfold is_exonic. apply not_true_is_false. intro E. apply existsb_exists in E. destruct E as (x & Hx & Ix).
+  destruct (chain_pre _ _ _ _ _ H) as (Hpre & A1 & A2 & A3 & C2). cbn [chain] in C2. destruct C2 as (B1 & B2 & B3 & C3).
+  unfold inside in Ix. apply in_app_or in Hx. destruct Hx as [Hx|[<-|[<-|Hx]]].
+  - specialize (Hpre x Hx). lia.
+  - lia.
+  - lia.
+  - pose proof (chain_post _ _ _ C3 x Hx). lia.
+Qed.
+
+Lemma upstream_end_plus_gap : forall (pre : list exon) (A B : exon) post lo hi p ind,
+  chain lo (pre ++ A :: B :: post) hi -> snd A <= p -> p < fst B ->
+  upstream_end_plus (pre ++ A :: B :: post) p ind = Some (snd A - 1).
+Proof.
+  induction pre as [|x pre IH]; intros A B post lo hi p ind C H1 H2.
+  - cbn [app chain] in C. cbn [app upstream_end_plus].
+    assert (snd A >? p = false) as -> by lia. assert (snd B >? p = true) as -> by lia. reflexivity.
+  - cbn [app] in *. cbn [chain] in C. destruct C as (C1 & C2 & C3 & C4).
+    pose proof (chain_pre _ _ _ _ _ C4) as (_ & M1 & M2 & _).
+    cbn [upstream_end_plus]. assert (snd x >? p = false) as -> by lia. apply (IH A B post _ hi p _ C4 H1 H2).
+Qed.
+
+Lemma downstream_start_plus_gap : forall (pre : list exon) (A B : exon) post lo hi p,
+  chain lo (pre ++ A :: B :: post) hi -> snd A <= p -> p < fst B ->
+  downstream_start_plus (pre ++ A :: B :: post) p = Some (fst B).
+Proof.
+  induction pre as [|x pre IH]; intros A B post lo hi p C H1 H2.
+  - cbn [app chain] in C. cbn [app downstream_start_plus].
+    assert (fst A >=? p = false) as -> by lia. assert (fst B >=? p = true) as -> by lia. reflexivity.
+  - cbn [app] in *. cbn [chain] in C. destruct C as (C1 & C2 & C3 & C4).
+    pose proof (chain_pre _ _ _ _ _ C4) as (_ & M1 & M2 & _).
+    cbn [downstream_start_plus]. assert (fst x >=? p = false) as -> by lia. apply (IH A B post _ hi p C4 H1 H2).
+Qed.
+
+(* the reversed scans: rev (pre ++ A :: B :: post) = rev post ++ B :: A :: rev pre *)
+Lemma upstream_end_minus_skip : forall (l rest : list exon) p ind,
+  (forall x, In x l -> p <= fst x) -> l <> [] ->
+  exists i, upstream_end_minus (l ++ rest) p ind = upstream_end_minus rest p (Some i).
+Proof.
+  induction l as [|x l IH]; intros rest p ind H N; [congruence|].
+  cbn [app upstream_end_minus]. assert (fst x <? p = false) as -> by (specialize (H x (or_introl eq_refl)); lia).
+  destruct l as [|y l'].
+  - cbn [app]. eauto.
+  - apply IH; [intros; apply H; right; assumption|discriminate].
+Qed.
+
+Lemma upstream_end_minus_gap : forall (pre : list exon) (A B : exon) post lo hi p,
+  chain lo (pre ++ A :: B :: post) hi -> snd A <= p -> p < fst B ->
+  upstream_end_minus (rev (pre ++ A :: B :: post)) p None = Some (fst B).
+Proof.
+  intros pre A B post lo hi p C H1 H2.
+  destruct (chain_pre _ _ _ _ _ C) as (Hpre & A1 & A2 & A3 & C2). cbn [chain] in C2. destruct C2 as (B1 & B2 & B3 & C3).
+  rewrite rev_app_distr. cbn [rev]. rewrite <- !app_assoc. cbn [app].
+  assert (T : forall ind, upstream_end_minus (B :: A :: rev pre) p ind = Some (fst B)).
+  { intros. cbn [upstream_end_minus]. assert (fst B <? p = false) as -> by lia. assert (fst A <? p = true) as -> by lia. reflexivity. }
+  destruct (rev post) as [|z zs] eqn:R.
+  - cbn [app]. apply T.
+  - destruct (upstream_end_minus_skip (z :: zs) (B :: A :: rev pre) p None) as (i & E).
+    + intros x Hx. rewrite <- R in Hx. apply in_rev in Hx. pose proof (chain_post _ _ _ C3 x Hx). lia.
+    + discriminate.
+    + rewrite E. apply T.
+Qed.
+
+Lemma downstream_start_minus_skip : forall (l rest : list exon) p,
+  (forall x, In x l -> p < snd x - 1) ->
+  downstream_start_minus (l ++ rest) p = downstream_start_minus rest p.
+Proof.
+  induction l as [|x l IH]; intros rest p H; [reflexivity|].
+  cbn [app downstream_start_minus]. assert (snd x - 1 <=? p = false) as -> by (specialize (H x (or_introl eq_refl)); lia).
+  apply IH. intros; apply H; right; assumption.
+Qed.
+
+Lemma downstream_start_minus_gap : forall (pre : list exon) (A B : exon) post lo hi p,
+  chain lo (pre ++ A :: B :: post) hi -> snd A <= p -> p < fst B ->
+  downstream_start_minus (rev (pre ++ A :: B :: post)) p = Some (snd A - 1).
+Proof.
+  intros pre A B post lo hi p C H1 H2.
+  destruct (chain_pre _ _ _ _ _ C) as (Hpre & A1 & A2 & A3 & C2). cbn [chain] in C2. destruct C2 as (B1 & B2 & B3 & C3).
+  rewrite rev_app_distr. cbn [rev]. rewrite <- !app_assoc. cbn [app].
+  rewrite downstream_start_minus_skip.
+  - cbn [downstream_start_minus]. assert (snd B - 1 <=? p = false) as -> by lia.
+    assert (snd A - 1 <=? p = true) as -> by lia. reflexivity.
+  - intros x Hx. apply in_rev in Hx. pose proof (chain_post _ _ _ C3 x Hx). lia.
+Qed.
+
+Section Gap.
+Variables (g : gene) (chrom : list Z).
+Let strand := g_strand g.
+Let gs := g_start g.
+Let ge := g_end g.
+Hypothesis Hstrand : strand = 1 \/ strand = -1.
+Hypothesis Hgs : 0 <= gs.
+Hypothesis Hge : ge <= zlength chrom.
+
+Lemma genomic2gene_gcoord : forall x, genomic2gene g x = gcoord strand gs ge x.
+Proof. reflexivity. Qed.
+
+Lemma donor_gap : forall (pre : list exon) (A B : exon) post p,
+  chain gs (pre ++ A :: B :: post) ge -> snd A <= p -> p < fst B ->
+  exists cut lis lie, donor_side g (pre ++ A :: B :: post) (gcoord strand gs ge p + 1) = Some (cut, (lis, lie)) /\
+    take (tx_seq strand chrom (pre ++ A :: B :: post)) cut ++ slice (gene_seq strand chrom gs ge) lis lie
+    = donor_part strand chrom (pre ++ A :: B :: post) p.
+Proof.
+  intros pre A B post p C H1 H2.
+  pose proof (chain_wchain _ _ _ C) as W.
+  destruct (chain_pre _ _ _ _ _ C) as (Hpre & A1 & A2 & A3 & C2). cbn [chain] in C2. destruct C2 as (B1 & B2 & B3 & C3).
+  pose proof (wchain_app _ _ _ _ W) as (Wpre & lo' & L1 & Wm & L2). cbn [wchain] in Wm.
+  destruct Wm as (W1 & W2 & W3 & W4 & W5 & W6 & Wpost).
+  assert (Lpre : zlength (exons_seq chrom pre) = exons_len pre)
+    by (eapply exons_seq_length; [exact Hgs|exact Hge|exact Wpre]).
+  assert (Lpost : zlength (exons_seq chrom post) = exons_len post)
+    by (eapply (exons_seq_length chrom post (snd B)); [lia|exact Hge|exact Wpost]).
+  unfold donor_side. fold strand gs ge.
+  replace (gcoord strand gs ge p + 1 - 1) with (gcoord strand gs ge p) by lia.
+  rewrite (g2g_inv g). rewrite (is_exonic_gap _ _ _ _ _ _ _ C H1 H2).
+  unfold upstream_exon_end. unfold donor_part.
+  destruct Hstrand as [S|S]; rewrite S; cbn [Z.eqb Pos.eqb].
+  - rewrite (upstream_end_plus_gap _ _ _ _ _ _ _ _ C H1 H2).
+    rewrite genomic2gene_gcoord. fold strand. rewrite S.
+    replace (gcoord 1 gs ge (snd A - 1) + 1 - 1) with (gcoord 1 gs ge (snd A - 1)) by lia.
+    rewrite (conv_mid 1 gs ge chrom) by (assumption || lia). cbn [Z.eqb Pos.eqb].
+    do 3 eexists. split; [reflexivity|].
+    rewrite (tx_seq_mid 1 chrom pre A (B :: post)). unfold side1, side2, gslice. cbn [Z.eqb Pos.eqb].
+    rewrite (take_two _ _ _ _) by (rewrite slice_length by lia; lia).
+    assert (G := gene_seq_slice 1 gs ge chrom Hgs Hge (snd A) (p + 1)). cbn [Z.eqb Pos.eqb] in G.
+    unfold gcoord. cbn [Z.eqb Pos.eqb].
+    replace (snd A - 1 - gs + 1) with (snd A - gs) by lia. replace (p - gs + 1) with (p + 1 - gs) by lia.
+    rewrite G by lia. unfold gslice. cbn [Z.eqb Pos.eqb].
+    rewrite (clip_upto_gap _ _ _ _ _ _ _ C H1 H2). rewrite exons_seq_app.
+    change (exons_seq chrom [(fst A, p + 1)]) with (slice chrom (fst A) (p + 1) ++ []). rewrite app_nil_r.
+    rewrite <- app_assoc. f_equal. apply slice_app; lia.
+  - rewrite (upstream_end_minus_gap _ _ _ _ _ _ _ C H1 H2).
+    rewrite genomic2gene_gcoord. fold strand. rewrite S.
+    replace (gcoord (-1) gs ge (fst B) + 1 - 1) with (gcoord (-1) gs ge (fst B)) by lia.
+    rewrite (reassoc1 pre A (B :: post)).
+    rewrite (conv_mid (-1) gs ge chrom) by (try rewrite <- reassoc1; assumption || lia).
+    cbn [Z.eqb].
+    do 3 eexists. split; [reflexivity|].
+    rewrite (tx_seq_mid (-1) chrom (pre ++ [A]) B post). unfold side1, side2, gslice. cbn [Z.eqb].
+    rewrite (take_two _ _ _ _) by (rewrite !revcomp_length; rewrite slice_length by lia; lia).
+    assert (G := gene_seq_slice (-1) gs ge chrom Hgs Hge p (fst B)). cbn [Z.eqb] in G.
+    unfold gcoord. cbn [Z.eqb].
+    replace (ge - 1 - fst B + 1) with (ge - fst B) by lia. replace (ge - 1 - p + 1) with (ge - p) by lia.
+    rewrite G by lia. unfold gslice. cbn [Z.eqb].
+    rewrite <- (reassoc1 pre A (B :: post)).
+    rewrite (clip_from_gap _ _ _ _ _ _ _ C H1 H2).
+    change (exons_seq chrom ((p, snd B) :: post)) with (slice chrom p (snd B) ++ exons_seq chrom post).
+    rewrite <- (slice_app chrom p (fst B) (snd B)) by lia.
+    rewrite !revcomp_app. rewrite <- !app_assoc. reflexivity.
+Qed.
+
+Lemma accepter_gap : forall (pre : list exon) (A B : exon) post q,
+  chain gs (pre ++ A :: B :: post) ge -> snd A <= q -> q < fst B ->
+  exists ris rie from, accepter_side g (pre ++ A :: B :: post) (gcoord strand gs ge q) = Some ((ris, rie), from) /\
+    slice (gene_seq strand chrom gs ge) ris rie ++ drop (tx_seq strand chrom (pre ++ A :: B :: post)) from
+    = accepter_part strand chrom (pre ++ A :: B :: post) q.
+Proof.
+  intros pre A B post q C H1 H2.
+  pose proof (chain_wchain _ _ _ C) as W.
+  destruct (chain_pre _ _ _ _ _ C) as (Hpre & A1 & A2 & A3 & C2). cbn [chain] in C2. destruct C2 as (B1 & B2 & B3 & C3).
+  pose proof (wchain_app _ _ _ _ W) as (Wpre & lo' & L1 & Wm & L2). cbn [wchain] in Wm.
+  destruct Wm as (W1 & W2 & W3 & W4 & W5 & W6 & Wpost).
+  assert (Lpre : zlength (exons_seq chrom pre) = exons_len pre)
+    by (eapply exons_seq_length; [exact Hgs|exact Hge|exact Wpre]).
+  assert (Lpost : zlength (exons_seq chrom post) = exons_len post)
+    by (eapply (exons_seq_length chrom post (snd B)); [lia|exact Hge|exact Wpost]).
+  unfold accepter_side. fold strand gs ge.
+  rewrite (g2g_inv g). rewrite (is_exonic_gap _ _ _ _ _ _ _ C H1 H2).
+  unfold downstream_exon_start. unfold accepter_part.
+  destruct Hstrand as [S|S]; rewrite S; cbn [Z.eqb Pos.eqb].
+  - rewrite (downstream_start_plus_gap _ _ _ _ _ _ _ C H1 H2).
+    rewrite genomic2gene_gcoord. fold strand. rewrite S.
+    rewrite (reassoc1 pre A (B :: post)).
+    rewrite (conv_mid 1 gs ge chrom) by (try rewrite <- reassoc1; assumption || lia). cbn [Z.eqb Pos.eqb].
+    do 3 eexists. split; [reflexivity|].
+    rewrite (tx_seq_mid 1 chrom (pre ++ [A]) B post). unfold side1, side2, gslice. cbn [Z.eqb Pos.eqb].
+    rewrite (drop_one _ _ _) by lia.
+    assert (G := gene_seq_slice 1 gs ge chrom Hgs Hge q (fst B)). cbn [Z.eqb Pos.eqb] in G.
+    unfold gcoord. cbn [Z.eqb Pos.eqb]. rewrite G by lia. unfold gslice. cbn [Z.eqb Pos.eqb].
+    rewrite <- (reassoc1 pre A (B :: post)).
+    rewrite (clip_from_gap _ _ _ _ _ _ _ C H1 H2).
+    change (exons_seq chrom ((q, snd B) :: post)) with (slice chrom q (snd B) ++ exons_seq chrom post).
+    rewrite <- (slice_app chrom q (fst B) (snd B)) by lia. rewrite <- app_assoc. reflexivity.
+  - rewrite (downstream_start_minus_gap _ _ _ _ _ _ _ C H1 H2).
+    rewrite genomic2gene_gcoord. fold strand. rewrite S.
+    rewrite (conv_mid (-1) gs ge chrom) by (assumption || lia). cbn [Z.eqb].
+    do 3 eexists. split; [reflexivity|].
+    rewrite (tx_seq_mid (-1) chrom pre A (B :: post)). unfold side1, side2, gslice. cbn [Z.eqb].
+    rewrite (drop_one _ _ _) by lia.
+    assert (G := gene_seq_slice (-1) gs ge chrom Hgs Hge (snd A) (q + 1)). cbn [Z.eqb] in G.
+    unfold gcoord. cbn [Z.eqb].
+    replace (ge - 1 - q) with (ge - (q + 1)) by lia. replace (ge - 1 - (snd A - 1)) with (ge - snd A) by lia.
+    rewrite G by lia. unfold gslice. cbn [Z.eqb].
+    rewrite (clip_upto_gap _ _ _ _ _ _ _ C H1 H2). rewrite exons_seq_app.
+    change (exons_seq chrom [(fst A, q + 1)]) with (slice chrom (fst A) (q + 1) ++ []). rewrite app_nil_r.
+    rewrite <- (slice_app chrom (fst A) (snd A) (q + 1)) by lia.
+    rewrite !revcomp_app. rewrite <- !app_assoc. reflexivity.
+Qed.
+End Gap.
+
+(* ================================================================== the full statement *)
+Definition located (ex : list exon) (p : Z) : Prop := exonic_in ex p \/ intronic_in ex p.
+
+Lemma span_located : forall (ex : list exon) lo hi p,
+  chain lo ex hi -> ex <> [] -> fst (hd (0, 0) ex) <= p -> p < snd (last ex (0, 0)) -> located ex p.
+Proof.
+  induction ex as [|x t IH]; intros lo hi p C N H1 H2; [congruence|].
+  cbn [hd] in H1.
+  destruct (Z_lt_ge_dec p (snd x)) as [Hp|Hp].
+  - left. exists [], x, t. cbn. repeat split; lia.
+  - destruct t as [|y t'].
+    + cbn in H2. lia.
+    + cbn [chain] in C. destruct C as (C1 & C2 & C3 & C4).
+      destruct (Z_lt_ge_dec p (fst y)) as [Hq|Hq].
+      * right. exists [], x, y, t'. cbn. repeat split; lia.
+      * assert (L : located (y :: t') p).
+        { apply (IH _ hi p C4); [discriminate|cbn; lia|]. exact H2. }
+        destruct L as [(pre & M & post & E & A & B)|(pre & A & B & post & E & HA & HB)].
+        -- left. exists (x :: pre), M, post. rewrite E. repeat split; assumption.
+        -- right. exists (x :: pre), A, B, post. rewrite E. repeat split; assumption.
+Qed.
+
+Section Sides.
+Variables (g : gene) (chrom : list Z).
+Hypothesis Hstrand : g_strand g = 1 \/ g_strand g = -1.
+Hypothesis Hgs : 0 <= g_start g.
+Hypothesis Hge : g_end g <= zlength chrom.
+
+Lemma donor_located : forall ex p, chain (g_start g) ex (g_end g) -> located ex p ->
+  exists cut lis lie, donor_side g ex (gcoord (g_strand g) (g_start g) (g_end g) p + 1) = Some (cut, (lis, lie)) /\
+    take (tx_seq (g_strand g) chrom ex) cut ++ slice (gene_seq (g_strand g) chrom (g_start g) (g_end g)) lis lie
+    = donor_part (g_strand g) chrom ex p.
+Proof.
+  intros ex p C [(pre & M & post & -> & A & B)|(pre & A & B & post & -> & HA & HB)].
+  - destruct (donor_exonic g chrom Hstrand Hgs Hge pre M post p C A B) as (cut & DS & DT).
+    exists cut, 0, 0. split; [assumption|]. rewrite slice_nil, app_nil_r. assumption.
+  - apply (donor_gap g chrom Hstrand Hgs Hge); assumption.
+Qed.
+
+Lemma accepter_located : forall ex q, chain (g_start g) ex (g_end g) -> located ex q ->
+  exists ris rie from, accepter_side g ex (gcoord (g_strand g) (g_start g) (g_end g) q) = Some ((ris, rie), from) /\
+    slice (gene_seq (g_strand g) chrom (g_start g) (g_end g)) ris rie ++ drop (tx_seq (g_strand g) chrom ex) from
+    = accepter_part (g_strand g) chrom ex q.
+Proof.
+  intros ex q C [(pre & M & post & -> & A & B)|(pre & A & B & post & -> & HA & HB)].
+  - destruct (accepter_exonic g chrom Hstrand Hgs Hge pre M post q C A B) as (from & AS & AD).
+    exists 0, 0, from. split; [assumption|]. rewrite slice_nil. cbn [app]. assumption.
+  - apply (accepter_gap g chrom Hstrand Hgs Hge); assumption.
+Qed.
+End Sides.
+
+Lemma in_product : forall a b x y, In (x, y) (product a b) -> In x a /\ In y b.
+Proof.
+  induction a as [|h t IH]; intros b x y H; cbn [product] in H; [contradiction|].
+  apply in_app_or in H. destruct H as [H|H].
+  - apply in_map_iff in H. destruct H as (z & E & Hz). inversion E; subst. split; [left; reflexivity|assumption].
+  - destruct (IH _ _ _ H). split; [right; assumption|assumption].
+Qed.
+
+(* the transcript line spans its exons (GENCODE: transcript start = first exon start, end = last exon end) *)
+Definition span_ok (t : tx) : Prop :=
+  t_start t = fst (hd (0, 0) (t_exons t)) /\ t_end t = snd (last (t_exons t) (0, 0)).
+
+Lemma fusion_denotes_full : forall t genes chroms dg ag L R out,
+  convert t genes chroms dg ag L R = FOk out ->
+  exists d a,
+    lookup_gene genes dg = FOk d /\ lookup_gene genes ag = FOk a /\
+    map (fun x => (f_dtx x, f_atx x)) out =
+      product (txs_with_position (g_txs (w_gene d)) (L - 1) 0) (txs_with_position (g_txs (w_gene a)) (R - 1) 0) /\
+    forall x, In x out ->
+      gene2genomic (w_gene d) (f_pos x - 1) = L - 1 /\ gene2genomic (w_gene a) (f_apos x) = R - 1 /\
+      forall td ta,
+        0 <= f_dtx x -> 0 <= f_atx x ->
+        nth_error (g_txs (w_gene d)) (Z.to_nat (f_dtx x)) = Some td ->
+        nth_error (g_txs (w_gene a)) (Z.to_nat (f_atx x)) = Some ta ->
+        wf_gene (w_gene d) (chrom_of chroms (w_chrom d)) -> wf_gene (w_gene a) (chrom_of chroms (w_chrom a)) ->
+        span_ok td -> span_ok ta ->
+        fusion_apply (w_gene d) (chrom_of chroms (w_chrom d)) (t_exons td)
+                     (w_gene a) (chrom_of chroms (w_chrom a)) (t_exons ta) x
+        = Some (fused_seq (g_strand (w_gene d)) (chrom_of chroms (w_chrom d)) (t_exons td) (L - 1)
+                          (g_strand (w_gene a)) (chrom_of chroms (w_chrom a)) (t_exons ta) (R - 1)).
+Proof.
+  intros t genes chroms dg ag L R out H.
+  destruct (convert_spec _ _ _ _ _ _ _ _ H) as (d & a & dp & ap & Ld & La & Gd & Ga & Pairs & Pos).
+  exists d, a. split; [assumption|]. split; [assumption|]. split; [assumption|].
+  intros x Hx. destruct (Pos x Hx) as (P1 & P2).
+  destruct (g2gene_inv _ _ _ Gd) as (D1 & D2 & D3). destruct (g2gene_inv _ _ _ Ga) as (A1 & A2 & A3).
+  split; [rewrite P1, D3; replace (gcoord _ _ _ (L - 1) + 1 - 1) with (gcoord (g_strand (w_gene d)) (g_start (w_gene d)) (g_end (w_gene d)) (L - 1)) by lia; apply g2g_inv|].
+  split; [rewrite P2, A3; apply g2g_inv|].
+  intros td ta Nd0 Na0 Ntd Nta (Sd & Gsd & Ged & Chd) (Sa & Gsa & Gea & Cha) (Sp1 & Sp2) (Sq1 & Sq2).
+  assert (Hpair : In (f_dtx x, f_atx x) (product (txs_with_position (g_txs (w_gene d)) (L - 1) 0) (txs_with_position (g_txs (w_gene a)) (R - 1) 0))).
+  { rewrite <- Pairs. apply (in_map (fun x => (f_dtx x, f_atx x))). assumption. }
+  destruct (in_product _ _ _ _ Hpair) as (Id & Ia).
+  destruct (txs_with_position_spec _ _ _ _ Id) as (td' & Nd' & _ & Ed & Td1 & Td2).
+  destruct (txs_with_position_spec _ _ _ _ Ia) as (ta' & Na' & _ & Ea & Ta1 & Ta2).
+  rewrite Z.sub_0_r in Nd', Na'. rewrite Ntd in Nd'. rewrite Nta in Na'. inversion Nd'; subst td'. inversion Na'; subst ta'.
+  pose proof (Chd td (nth_error_In _ _ Ntd)) as Cd. pose proof (Cha ta (nth_error_In _ _ Nta)) as Ca.
+  assert (Locd : located (t_exons td) (L - 1)) by (eapply span_located; [exact Cd|assumption|lia|lia]).
+  assert (Loca : located (t_exons ta) (R - 1)) by (eapply span_located; [exact Ca|assumption|lia|lia]).
+  destruct (donor_located (w_gene d) (chrom_of chroms (w_chrom d)) Sd Gsd Ged _ _ Cd Locd) as (cut & lis & lie & DS & DT).
+  destruct (accepter_located (w_gene a) (chrom_of chroms (w_chrom a)) Sa Gsa Gea _ _ Ca Loca) as (ris & rie & from & AS & AD).
+  unfold fusion_apply, fused_seq. rewrite P1, P2, D3, A3, DS, AS.
+  f_equal. rewrite <- DT, <- AD. rewrite <- !app_assoc. reflexivity.
+Qed.
